@@ -276,7 +276,49 @@ def rule_hoist_spans(ck):
             ck.violation(where, f"operand '{text}': the rebuilt operand node spans ({o_start!r}, {o_end!r}), not the operand's own text", construct="hoisted operand span")
 
 
+def rule_parse_error_positions(ck):
+    """Faults planted at a known token of malformed statements: the real statement parser is run (abstractly) and the FIRST span of
+    the first error must start at that token - after operators followed by blanks or a line break, after commas, inside brackets,
+    behind tabs. (Parser.__call__ backtracks by restoring the context: it must not do so before the report of a failed mandatory
+    parser has been emitted, because report spans hold the live context.)"""
+    repo = ck.repo
+    I = eager_interp(repo)
+    I.summaries = {"reports::emit_report": emit_report_summary}
+    I.explore(lambda: I.module_get("metacommands", "end"))
+    where = "parser::Parser.__call__"
+    cases = [("mov #2 *   , r0\n", "invalid-expression", ","), ("x = (3 /  )\n", "invalid-expression", ")"), ("mov #2 *\n   , r0\n", "invalid-expression", ","), ("mov r0,\n", "invalid-operand", ","),
+             (".word 1,, 2\n", "invalid-operand", ","), ("lab: mov #, r0\n", "invalid-expression", ","), ("\tclr\t@#\t]\n", "invalid-expression", "]"), ("nop\n\tadd r1, 5 +\t\t}\n", "invalid-expression", "}"),
+             ("a = 1\nb = a *\n\n\n  ]\n", "invalid-expression", "]")]
+    for text, ident, culprit in cases:
+        def thunk(text=text):
+            ctx = I.instantiate(I.module_get("context", "Context"), ["a.mac", text], {})
+            try:
+                I.call(I.module_get("parser", "code"), [ctx], {})
+            except Raised:
+                pass
+            out = []
+            for e in I.effects:
+                if e[0] == "report" and e[1] in ("error", "critical"):
+                    sp = [s_ for s_ in e[3] if isinstance(s_, tuple) and len(s_) == 3]
+                    out.append((e[2], [(s_[0].fields.get("pos"), s_[1].fields.get("pos"), s_[0].fields.get("filename")) if isinstance(s_[0], Rec) and isinstance(s_[1], Rec) else None for s_ in sp]))
+            return out
+        ps = I.explore(thunk)
+        want = text.index(culprit)
+        got = ps[0].value if len(ps) == 1 and ps[0].kind == "return" else None
+        ck.instance(("parse-error", text), {"text": text, "first error": repr(got[0]) if got else None, "culprit at": want}, fn=where)
+        if not got:
+            ck.violation(where, f"the malformed text {text!r} produces no error diagnostic ({ps})", construct="parse error position")
+            continue
+        name, spans = got[0]
+        first = spans[0] if spans else None
+        line = lambda i: (text.count("\n", 0, i) + 1, i - (text.rfind("\n", 0, i) + 1) + 1)
+        if first is None or first[0] != want or first[2] != "a.mac" or first[0] > first[1]:
+            ck.violation(where, f"the malformed text {text!r}: the first error is '{name}' with first span {first} (character offsets); the offending token {culprit!r} is at offset {want} "
+                                f"(line:char {line(want)}), the span starts at {line(first[0]) if first and first[0] is not None else None}", construct="parse error position")
+
+
 def run(ck):
+    ck.run_rule("C17.perr", "faults planted in malformed statements: the first span of the first error starts at the offending token", 9, rule_parse_error_positions)
     ck.run_rule("C17.hoist", "nodes rebuilt by hoisting keep the spans of the text they stand for", 6, rule_hoist_spans)
     from ..rules import deliver
     ck.run_rule("R.deliver", "the handler receives a report's spans as given: the first span is the culprit", 6, deliver.rule_deliver)
